@@ -73,6 +73,9 @@ func compareGuard(g *core.GuardEval, conds []core.Cond, roles []string, dom []in
 	}
 	conds = kept
 	n = core.EnumEnvs(roles, dom, func(env map[string]int64) bool {
+		if guardEnvAssume != nil && !guardEnvAssume(env) {
+			return true // outside what the rule assumes (an invariant the code relies on)
+		}
 		gv, e := g.Eval(conds, env)
 		if e != nil {
 			err = e
@@ -102,6 +105,9 @@ func compareGuard(g *core.GuardEval, conds []core.Cond, roles []string, dom []in
 	})
 	return
 }
+
+// guardEnvAssume, when set by a rule around a compareGuard call, restricts the valuations compared.
+var guardEnvAssume func(env map[string]int64) bool
 
 var smallDom = []int64{-1, 0, 1, 2, 3}
 
